@@ -1,11 +1,13 @@
 import GMGDriver.GridDrv
 import GMGDriver.LinalgDrv
+import GMGDriver.ObjectsDrv
 
 def main (args : List String) : IO UInt32 := do
   match args with
   | ["grid"] => GridDrv.main
   | ["tridiag"] => LinalgDrv.tridiagMain
   | ["lu"] => LinalgDrv.luMain
+  | ["objects"] => ObjectsDrv.main
   | _ => do
     IO.eprintln "usage: gmgdriver <grid|tridiag|lu|...>  (reads the harness line protocol on stdin)"
     return 2
